@@ -97,6 +97,8 @@ func c08Yaml(m []KV) string {
 			fmt.Fprintf(&sb, "%s: %q\n", kv.K, kv.V.S)
 		case "bool":
 			fmt.Fprintf(&sb, "%s: %v\n", kv.K, kv.V.B)
+		case "nil":
+			fmt.Fprintf(&sb, "%s: ~\n", kv.K)
 		default:
 			fmt.Fprintf(&sb, "%s: %d\n", kv.K, kv.V.I)
 		}
@@ -154,18 +156,20 @@ func runC08(r *Run) {
 	r.Rule("engines with every presence pattern of a key in theme.yml, data/1.yml, data/2.yml (directory order), the page's front-matter, Fill and Assign; Fill data as map, struct (json tags and an untagged field) and pointer to struct; " +
 		"histories up to length 9 of New / Load / Fill / Assign / Get / Render / RenderString on a growing template tree; after every render each key is read through {{ }}, a bound attribute and v-if, " +
 		"and parents and siblings are read again after operations on a child; non-trivial: a key present in >= 2 sources")
-	r.Assume("values are strings, ints and bools without HTML-special characters; the layout key is not used (C07)")
+	r.Assume("values are strings, ints, bools and null without HTML-special characters; the layout key is not used (C07)")
 	rr := r.Rng
 	n := 1500
 	if r.Thorough() {
 		n = 40000
 	}
 	valOf := func(tag, k string) Val {
-		switch rr.Intn(5) {
+		switch rr.Intn(7) {
 		case 0:
 			return VInt("int", int64(rr.Intn(3)))
 		case 1:
 			return VStr("")
+		case 2:
+			return VNil() // `key: ~` in YAML, Assign(key, nil), a nil entry in a Fill map: the key IS defined there
 		}
 		return VStr(tag + "-" + k)
 	}
@@ -313,6 +317,9 @@ func runC08(r *Run) {
 					for _, kv := range src {
 						if kv.K == k {
 							want = fmt.Sprint(kv.V.Go())
+							if kv.V.K == "nil" {
+								want = ""
+							}
 						}
 					}
 				}
